@@ -550,6 +550,35 @@ static void kind_matrix(void) {
   }
 }
 
+
+/* the object bound in the handler IS the one that was thrown (same object, not an equal one): stack, heap and static
+   objects, thrown from the body, from a callee, through a non-matching inner filter and from a handler */
+static void __attribute__((noinline)) thrower(var x) { throw(x, "thrown by a callee"); }
+static void thrown_object_identity(void) {
+  var heap_i = new_root(Int, $I(77)), heap_s = new_root(String, $S("heap text"));
+  for (int kind = 0; kind < 6; kind++) {
+    var x = kind == 0 ? (var)$I(42) : kind == 1 ? (var)$S("stack text") : kind == 2 ? (var)$F(2.5) : kind == 3 ? heap_i : kind == 4 ? heap_s : (var)KeyError;
+    /* a filter is compared with the thrown object by eq: it has to be an object of the same type */
+    var other = (kind == 0 || kind == 3) ? (var)$I(-1) : (kind == 1 || kind == 4) ? (var)$S("another text") : kind == 2 ? (var)$F(-1.0) : (var)IOError;
+    for (int route = 0; route < 4; route++) {
+      volatile var bound = NULL; volatile int handled = 0;
+      size_t d0 = len(current(Exception));
+      switch (route) {
+        case 0: try { throw(x, "from the body"); } catch (e) { bound = e; handled++; } break;
+        case 1: try { thrower(x); } catch (e in x) { bound = e; handled++; } break;
+        case 2: try { try { thrower(x); } catch (e in other) { handled += 100; } } catch (e) { bound = e; handled++; } break;
+        default: try { try { throw(IOError, "first"); } catch (e) { throw(x, "from a handler"); } } catch (e2) { bound = e2; handled++; } break;
+      }
+      vh_evals(3);
+      if (handled != 1) { vh_violation("C07:identity:handler-count", "thrown object kind %d, route %d: handlers ran %d times", kind, route, handled); }
+      else if (bound != x) { vh_violation("C07:identity:bound-object-is-not-the-thrown-one", "thrown object kind %d (%s), route %d: the handler was given another object (%s one that compares equal)", kind, c_str(type_of(x)), route, bound && eq(bound, x) ? "" : "not even"); }
+      if (len(current(Exception)) != d0) { vh_violation("C07:kinds:depth-not-restored", "depth %zu before, %zu after", d0, len(current(Exception))); }
+      vh_count("thrown_object_identity_checks");
+    }
+  }
+  del_root(heap_i); del_root(heap_s);
+}
+
 static void fixed(void) {
   /* the canonical shape: inner handles, outer completes normally */
   nnodes = 0;
@@ -588,6 +617,9 @@ static void fixed(void) {
   vh.oplen = 0; vh.oplog[0] = 0; vh.nops = 0;
   vh_op("kind matrix: every (thrown, filter) pair over 16 built-in and 4 user-defined kinds");
   kind_matrix();
+  vh.oplen = 0; vh.oplog[0] = 0; vh.nops = 0;
+  vh_op("identity of the bound object: 6 kinds of thrown object x 4 routes");
+  thrown_object_identity();
 }
 
 int main(int argc, char** argv) {
